@@ -94,6 +94,19 @@ class Polytope:
         n_faces = 4
         for i in range(n_faces):
             self.compute_normal(i)
+        # The winding above is only correct for one of the two possible
+        # orientations of the tetrahedron that GJK returns. The origin is
+        # inside of the simplex, so the normals point to the outside if they
+        # point away from the origin.
+        orientation = np.dot(
+            np.cross(simplex[1] - simplex[0], simplex[2] - simplex[0]),
+            simplex[3] - simplex[0])
+        if orientation > 0.0:
+            for i in range(n_faces):
+                temp = np.copy(self.faces[i, 0])
+                self.faces[i, 0] = self.faces[i, 1]
+                self.faces[i, 1] = temp
+                self.faces[i, 3] = -self.faces[i, 3]
         return n_faces
 
     def compute_normal(self, face_idx):
